@@ -12,9 +12,6 @@ PYNN_ONLY = ["sqeuclidean", "jensen_shannon", "true_angular", "tsss", "spearmanr
 GRAPH_TOL = 2e-5
 
 
-def regen(ctx):
-    regen_mod.regen(ctx)
-
 
 def gdiff(a, b):
     da, db = sparse_to_dict(a), sparse_to_dict(b)
